@@ -184,6 +184,10 @@ func panicKey(c *Case, stage string) string {
 		return "panic/json-node:" + c.Kind + ":" + c.Class
 	case "crl-der-byte-mutation":
 		return "panic/crl-der-byte-mutation:crl-cache"
+	case "document-byte-mutation":
+		return "panic/document-byte-mutation:" + c.Kind
+	case "oci-layout-byte-mutation":
+		return "panic/oci-layout-byte-mutation:" + c.Kind + ":" + stage
 	case "oci-layout":
 		return "panic/json-node:" + c.Kind + ":" + c.Class + ":" + stage
 	case "plugin-output":
@@ -198,7 +202,7 @@ func allocKey(c *Case) string {
 		return "runaway-allocation:config-matrix"
 	case "nil-arguments":
 		return "runaway-allocation:nil-arguments:" + c.Label
-	case "envelope-byte-mutation", "crl-der-byte-mutation":
+	case "envelope-byte-mutation", "crl-der-byte-mutation", "document-byte-mutation", "oci-layout-byte-mutation":
 		return "runaway-allocation:" + c.Family + ":" + c.Kind
 	}
 	return "runaway-allocation:" + c.Family + ":" + c.Kind + ":" + c.Class
@@ -461,6 +465,11 @@ func (x *wctx) runMatrix(c *Case, res *Result) {
 			_, o, err := notation.VerifyBlob(ctx, v, bytes.NewReader(x.fx.Blob), sig, notation.VerifyBlobOptions{BlobVerifierVerifyOptions: notation.BlobVerifierVerifyOptions{SignatureMediaType: mt, TrustPolicyName: name}})
 			touchOutcome(o, stage)
 			class = judgeNotationVerifyBlob(res, c, o, err)
+			if err == nil && (t.Sig == "empty" || t.Sig == "nil") {
+				// notation.go: "signature cannot be nil or empty" is an argument check made before any policy is consulted
+				res.viol("guard/no-error-for-empty-signature:notation.VerifyBlob", "notation.VerifyBlob accepted a %s signature without error | case: %s", t.Sig, c.describe())
+				class = "violation"
+			}
 		})
 	}
 	if class == "" {
@@ -940,7 +949,7 @@ func (x *wctx) runLayout(c *Case, res *Result) error {
 	if err != nil {
 		return err
 	}
-	pre := "oci-layout:" + c.Kind + "(" + c.Variant + "):"
+	pre := c.Family + ":" + c.Kind + "(" + c.Variant + "):"
 	var repo registry.Repository
 	var oerr error
 	if x.call(res, c, "registry.NewOCIRepository", func(*string) {
@@ -989,12 +998,16 @@ func (x *wctx) runLayout(c *Case, res *Result) error {
 	if c.Kind != "index.json" && c.Variant == "consistent" {
 		cands = append(cands, ocispec.Descriptor{MediaType: x.fx.LayoutDocs[c.Kind].MediaType, Digest: digest.FromBytes(c.Input), Size: int64(len(c.Input))})
 	}
+	listedRefused := 0
 	x.call(res, c, "registry.Repository.FetchSignatureBlob", func(*string) {
 		ok, bad := 0, 0
-		for _, d := range cands {
+		for i, d := range cands {
 			if b, bd, err := repo.FetchSignatureBlob(ctx, d); err != nil {
 				_ = err.Error()
 				bad++
+				if i < len(listed) {
+					listedRefused++
+				}
 			} else {
 				_ = len(b) + len(bd.MediaType)
 				ok++
@@ -1008,7 +1021,12 @@ func (x *wctx) runLayout(c *Case, res *Result) error {
 	}
 	for _, ref := range []string{refRepo + ":" + refTag, refRepo + "@" + x.fx.Desc.Digest.String()} {
 		x.call(res, c, "notation.Verify", func(stage *string) {
-			parts = append(parts, "verify-"+x.judgeNotationVerify(res, c, stage, v, repo, ref))
+			cl := x.judgeNotationVerify(res, c, stage, v, repo, ref)
+			if listedRefused > 0 && listedRefused < len(listed) && (cl == "accepted" || cl == "retrieval-failed") {
+				// the store lists the referrers in map order: whether the refused or the good manifest comes first is not fixed
+				cl = "accepted-or-retrieval-failed(depends on the listing order)"
+			}
+			parts = append(parts, "verify-"+cl)
 		})
 	}
 	res.class("%s%s", pre, strings.Join(parts, ","))
@@ -1396,9 +1414,9 @@ func (x *wctx) run(c *Case) (*Result, error) {
 		err = x.runNilArgs(c, res)
 	case "envelope-byte-mutation", "envelope-json-node":
 		err = x.runEnvelope(c, res)
-	case "json-node", "crl-der-byte-mutation":
+	case "json-node", "crl-der-byte-mutation", "document-byte-mutation":
 		err = x.runDocument(c, res)
-	case "oci-layout":
+	case "oci-layout", "oci-layout-byte-mutation":
 		err = x.runLayout(c, res)
 	case "plugin-output":
 		err = x.runPlugin(c, res)
